@@ -427,6 +427,34 @@ fn exec_run_main(args: &[String]) {
     }
 }
 
+/// Thread tier, meant to run under Miri: `miri-run <seed> <start> <end>`.
+/// Every plan is first executed serially, then with one real thread per client sharing the
+/// predictors; Miri's seeded scheduler decides every preemption.
+fn miri_run_main(args: &[String]) {
+    let seed: u64 = args[0].parse().unwrap();
+    let start: u64 = args[1].parse().unwrap();
+    let end: u64 = args[2].parse().unwrap();
+    let mut threads = 0usize;
+    let mut ops = 0usize;
+    for run in start..end {
+        let plan = hist_engine::plan_for("C08", seed, run, true);
+        let preds = match histsim::build_predictors(&plan) {
+            histsim::Built::Ok(p) => p,
+            histsim::Built::HarnessError(e) => {
+                eprintln!("HARNESS-ERROR: run {run}: {e}");
+                std::process::exit(2)
+            }
+        };
+        threads += plan.clients.len();
+        ops += plan.n_ops();
+        if let Some(v) = histsim::execute_threaded(&plan, &preds) {
+            println!("MIRI-TIER-VIOLATION run={run} class={} client={} op={}", v.class, v.client, v.op_index);
+            std::process::exit(1);
+        }
+    }
+    println!("miri-run ok seed={seed} runs={start}..{end} client_threads={threads} operations={ops}");
+}
+
 fn plan_value(property: &str, seed: u64, run: u64) -> serde_json::Value {
     match property {
         "C05" | "C08" => serde_json::to_value(hist_engine::plan_for(property, seed, run, false)).unwrap(),
@@ -456,6 +484,7 @@ fn main() {
         "worker" => worker_main(&args[1..]),
         "replay" => replay_main(&args[1..]),
         "exec-run" => exec_run_main(&args[1..]),
+        "miri-run" => miri_run_main(&args[1..]),
         "show" => {
             let v = plan_value(&args[1], args[2].parse().unwrap(), args[3].parse().unwrap());
             println!("{}", serde_json::to_string_pretty(&v).unwrap());
